@@ -6,6 +6,7 @@ import (
 	"go/token"
 	"go/types"
 	"math/big"
+	"sort"
 	"strings"
 
 	"golang.org/x/tools/go/ssa"
@@ -717,6 +718,33 @@ func (e *Enc) alloc(fr *Frame, x *ssa.Alloc, g string, h *Heap) *Heap {
 			a := &Addr{key: key, idx: []string{ref}, typ: u.Field(i).Type()}
 			h2 = e.store(h2, a, e.d.zeroOf(u.Field(i).Type()))
 		}
+		// ghost fields of a new object start at their zero value too
+		if n, ok := t.(*types.Named); ok && n.Obj().Pkg() != nil {
+			prefix := n.Obj().Pkg().Path() + "." + n.Obj().Name() + "."
+			var names []string
+			for k, g := range e.w.cs.Ghosts {
+				if strings.HasPrefix(k, prefix) {
+					names = append(names, g.Name)
+				}
+			}
+			sort.Strings(names)
+			for _, name := range names {
+				key := e.ghostKey(t, name)
+				if key == "" {
+					continue
+				}
+				srt, goT, _, _, _ := e.ghostInfo(t, name)
+				zero := zeroOfSort(srt)
+				if goT != nil {
+					zero = e.d.zeroOf(goT)
+				}
+				if zero == "" {
+					continue
+				}
+				a := &Addr{key: key, idx: []string{ref}, typ: goT}
+				h2 = e.store(h2, a, zero)
+			}
+		}
 		fr.ops[x] = opVal(Val{ref, "Int"})
 		return h2
 	case *types.Array:
@@ -885,4 +913,23 @@ func (e *Enc) havocAll(fr *Frame, h *Heap, why string) *Heap {
 		e.havocAllBlocks[e.curRootBlock] = true
 	}
 	return nh
+}
+
+// zeroOfSort: the zero value of a ghost field that has no Go type (sets, maps).
+func zeroOfSort(srt string) string {
+	switch {
+	case srt == "Int":
+		return "0"
+	case srt == "Bool":
+		return "false"
+	case srt == sliceSort:
+		return "(mk_slice 0 0 0 0)"
+	case strings.HasPrefix(srt, "(Array Int "):
+		inner := zeroOfSort(strings.TrimSuffix(strings.TrimPrefix(srt, "(Array Int "), ")"))
+		if inner == "" {
+			return ""
+		}
+		return fmt.Sprintf("((as const %s) %s)", srt, inner)
+	}
+	return ""
 }
